@@ -23,7 +23,7 @@ func hostileOffset(r *workload.Rand, n int, exact int) (int, string) {
 	case 3:
 		return n + 1 + r.Intn(3), "beyond_end"
 	case 4:
-		return 1 << 40, "beyond_end"
+		return off40, "beyond_end"
 	case 5:
 		return math.MaxInt, "near_maxint"
 	case 6:
